@@ -1,4 +1,4 @@
-from . import check_c16, check_establish, check_pool
+from . import check_combo, check_establish, check_pool
 
 REGISTRY = {
     "C04": check_pool,
@@ -6,8 +6,8 @@ REGISTRY = {
     "C06": check_pool,
     "C07": check_pool,
     "C09": check_pool,
-    "C10": check_establish,
+    "C10": check_combo,
     "C11": check_establish,
-    "C16": check_c16,
+    "C16": check_combo,
     "C20": check_establish,
 }
